@@ -33,6 +33,7 @@ const (
 	ProposalCommittedWindow
 	ReadIndexWindow
 	NativeSMClose
+	NodeTick
 	NumPoints
 )
 
